@@ -61,6 +61,12 @@ var c18tpls = []c18tpl{
 	{src: `util.Set(x)`, needs: []string{"util", "x"}},
 	{src: `ext.Bump()`, needs: []string{"ext"}},
 	{src: `util.Count() + ext.Twice(2)`, needs: []string{"util", "ext"}, final: true},
+	// block-scoped top-level locals of other types than int (a later chunk's frame must not inherit them)
+	{src: "if f := 1.5; f > 1 {\n\ty += 1\n}", needs: []string{"y"}, block: true},
+	{src: "for j := 0; j < 4; j++ {\n\ty += j / 2\n}", needs: []string{"y"}, block: true},
+	{src: "for _, w := range []string{\"ab\"} {\n\tk := len(w) / 3\n\ty += k + 1\n}", needs: []string{"y"}, block: true},
+	// a struct type of a package that a later chunk loads again
+	{src: `fmt.Println(util.New(x), util.New(1).X)`, needs: []string{"fmt", "util", "x"}},
 	{src: `x + y`, needs: []string{"x", "y"}, final: true},
 	{src: `f(2) + c`, needs: []string{"f", "c"}, final: true},
 	{src: `t.M()`, needs: []string{"t", "M"}, final: true},
@@ -70,7 +76,7 @@ var c18tpls = []c18tpl{
 var c18globals = []string{"x", "y", "z", "c", "s", "i"}
 
 var c18fs = goat.FS(map[string]string{
-	"util/util.go": "package util\n\nvar last any\nvar count int\n\nfunc Set(v int) {\n\tlast = v\n\tcount++\n}\n\nfunc Last() any {\n\treturn last\n}\n\nfunc Count() int {\n\treturn count\n}\n",
+	"util/util.go": "package util\n\nvar last any\nvar count int\n\nfunc Set(v int) {\n\tlast = v\n\tcount++\n}\n\nfunc Last() any {\n\treturn last\n}\n\nfunc Count() int {\n\treturn count\n}\n\ntype P struct {\n\tX int\n\tY int\n}\n\nfunc New(a int) *P {\n\treturn &P{X: a, Y: a + 1}\n}\n",
 	"ext/ext.go":   "package ext\n\nimport \"util\"\n\nfunc Bump() {\n\tutil.Set(99)\n}\n\nfunc Twice(a int) int {\n\treturn a * 2\n}\n",
 })
 
